@@ -116,8 +116,14 @@ def _iter_toplevel(stmts):
 class Program:
     """All non-vendored modules under <repo>/stone."""
 
-    def __init__(self, repo=None, extra_roots=()):
+    def __init__(self, repo=None, extra_roots=(), alpha=True):
         self.repo = repo or REPO
+        self.alpha_renames = []
+        self._alpha_ref = None
+        if alpha:
+            from . import alpha as _alpha
+            self._alpha_ref = _alpha.load_reference(
+                os.path.dirname(os.path.dirname(os.path.abspath(__file__))))
         self.modules = {}
         self.classes = {}
         self.functions = {}
@@ -156,6 +162,12 @@ class Program:
                     tree = ast.parse(src, filename=path)
                 except SyntaxError as e:
                     raise AnalysisError('cannot parse %s: %s' % (rel, e))
+                from . import alpha as _alpha
+                _alpha.normalise_comparisons(tree)
+                _alpha.normalise_negated_tests(tree)
+                _alpha.normalise_conditional_assignments(tree)
+                if self._alpha_ref is not None:
+                    _alpha.normalise_module(tree, name, self._alpha_ref, self.alpha_renames)
                 for node in ast.walk(tree):
                     for child in ast.iter_child_nodes(node):
                         child._parent = node
@@ -431,6 +443,93 @@ def own_nodes(funcnode, include_nested=False):
                 n, (ast.FunctionDef, ast.AsyncFunctionDef, ast.ClassDef, ast.Lambda)):
             continue
         stack.extend(reversed(list(ast.iter_child_nodes(n))))
+
+
+def _is_docstring(st):
+    return isinstance(st, ast.Expr) and isinstance(st.value, ast.Constant) and \
+        isinstance(st.value.value, str)
+
+
+def single_return_expr(funcnode):
+    """The expression a straight-line function returns: exactly one ``return``,
+    a direct child of the body, every other statement being a docstring,
+    ``pass`` or a plain assignment of a local (no control flow, no calls for
+    effect).  Locals assigned once by such a statement are substituted into
+    the result, so ``x = f(a); return x`` and ``return f(a)`` read the same;
+    assignments the result does not depend on are ignored.  None otherwise."""
+    if id(funcnode) in _sre_cache and _sre_cache[id(funcnode)][0] is funcnode:
+        return _sre_cache[id(funcnode)][1]
+    r = _single_return_expr(funcnode)
+    _sre_cache[id(funcnode)] = (funcnode, r)
+    return r
+
+
+_sre_cache = {}
+
+
+def _single_return_expr(funcnode):
+    ret = None
+    assigns = {}
+    for st in funcnode.body:
+        if _is_docstring(st) or isinstance(st, ast.Pass):
+            continue
+        if isinstance(st, ast.Return):
+            if ret is not None:
+                return None
+            ret = st
+            continue
+        if ret is not None:
+            return None            # statements after the return
+        if isinstance(st, ast.Assign) and len(st.targets) == 1 and \
+                isinstance(st.targets[0], ast.Name):
+            assigns.setdefault(st.targets[0].id, []).append(st.value)
+            continue
+        return None
+    if ret is None or ret.value is None:
+        return None
+    def clone(e, depth):
+        """Copy following AST fields only (never the _parent back-links)."""
+        if isinstance(e, ast.Name) and isinstance(e.ctx, ast.Load) and depth:
+            v = assigns.get(e.id)
+            if v is not None and len(v) == 1:
+                return clone(v[0], depth - 1)
+        if isinstance(e, ast.AST):
+            new = type(e)()
+            for f in e._fields:
+                if hasattr(e, f):
+                    setattr(new, f, clone(getattr(e, f), depth))
+            for a in ('lineno', 'col_offset', 'end_lineno', 'end_col_offset'):
+                if hasattr(e, a):
+                    setattr(new, a, getattr(e, a))
+            return new
+        if isinstance(e, list):
+            return [clone(x, depth) for x in e]
+        return e
+
+    def subst(e):
+        return clone(e, 6)
+    out = subst(ret.value)
+    ast.fix_missing_locations(out)
+    return out
+
+
+def returns_text(funcnode):
+    """unparse(single_return_expr(f)) or None."""
+    e = single_return_expr(funcnode)
+    return None if e is None else unparse(e)
+
+
+def self_assigns(funcnode):
+    """{'self.x': value text} for the assignments to attributes of self (local
+    temporaries are not part of what a constructor/reset stores)."""
+    out = {}
+    for n in own_nodes(funcnode):
+        if isinstance(n, ast.Assign):
+            for t in n.targets:
+                if isinstance(t, ast.Attribute) and isinstance(t.value, ast.Name) and \
+                        t.value.id == 'self':
+                    out[unparse(t)] = unparse(n.value)
+    return out
 
 
 def calls_in(funcnode, include_nested=False):
